@@ -1,6 +1,6 @@
 (** C08 - float text I/O is lossless and base/precision changes are faithfully rounded. Statements only. *)
 From Dashu Require Import Base.Prelude Float.RoundSpec Float.RoundSpecProof Float.Contract Float.Model Float.ModelProof
-  Int.IoSpec Float.TextIoSpec Float.TextIoModel Float.BaseConvProof Float.TextIoProof Float.ParseProof Float.TextIoExamples.
+  Int.IoSpec Float.TextIoSpec Float.TextIoModel Float.BaseConvProof Float.TextIoProof Float.SciProof Float.ParseProof Float.ParseSound Float.TextIoExamples.
 From DashuGen Require Import RoundTables.
 Open Scope Z_scope.
 
@@ -12,6 +12,16 @@ Open Scope Z_scope.
 Theorem C08_parse_grammar_exact : forall B s v, radix_valid B = true -> parse_spec B s = Some v -> parse_asis B s = Ok v.
 Proof. exact parse_asis_complete. Qed.
 Print Assumptions C08_parse_grammar_exact.
+
+(** ... and nothing else is accepted: whatever the parser returns, the grammar accepts the text with exactly
+    that value and digit count (after the repairs F02, F04) *)
+Theorem C08_parse_nothing_outside_grammar : forall B s v, radix_valid B = true -> parse_asis B s = Ok v -> parse_spec B s = Some v.
+Proof. exact parse_asis_sound. Qed.
+Print Assumptions C08_parse_nothing_outside_grammar.
+
+Theorem C08_parse_iff : forall B s v, radix_valid B = true -> (parse_asis B s = Ok v <-> parse_spec B s = Some v).
+Proof. exact parse_asis_iff. Qed.
+Print Assumptions C08_parse_iff.
 
 (** ** print without options, then parse: the same number *)
 
@@ -39,6 +49,14 @@ Theorem C08_display_asis_spec : forall B, 2 <= B -> forall m s e prec, (s = 0 ->
   fmt_round_body_asis B m s e prec = display_body_spec B m s e prec.
 Proof. exact fmt_round_body_asis_spec. Qed.
 Print Assumptions C08_display_asis_spec.
+
+(** LowerExp / UpperExp (Repr::fmt_round_scientific after the repair of finding F03): one digit, point,
+    exactly the requested number of fractional digits of the significand rounded by spec_round, a carry
+    into a new digit renormalised, marker and exponent of the leading digit *)
+Theorem C08_sci_asis_spec : forall B, 2 <= B -> forall m upper s e prec, (s = 0 -> e = 0) -> (forall p, prec = Some p -> 0 <= p) ->
+  sci_body_asis B m upper s e prec = sci_body_spec B m upper s e prec.
+Proof. exact sci_body_asis_spec. Qed.
+Print Assumptions C08_sci_asis_spec.
 
 (** ** precision changes *)
 
